@@ -56,5 +56,10 @@ TUpdateTargets ==
 TSave == IsEvent("save") /\ Save /\ Obs /\ Step
 TRestore == IsEvent("restore") /\ Restore(Ev.slot) /\ Obs /\ Step
 
-TNext == TAssign \/ TSetAuto \/ TUpdateAll \/ TUpdateTargets \/ TSave \/ TRestore
+\* the nodes are popped, a value is assigned outside any model, and the model is rebuilt from the same objects
+TRebuild ==
+  /\ IsEvent("rebuild")
+  /\ Rebuild(Ev.n, Ev.x, IF "order" \in DOMAIN Ev THEN Ev.order ELSE ord) /\ Obs /\ Step
+
+TNext == TRebuild \/ TAssign \/ TSetAuto \/ TUpdateAll \/ TUpdateTargets \/ TSave \/ TRestore
 =============================================================================
